@@ -217,18 +217,22 @@ class Engine:
         lg = logging.getLogger("pymoca")
         lg.addHandler(logging.NullHandler())
         lg.propagate = False
+        self.ref_world = procs.RefWorld()
 
     # -- reference -------------------------------------------------------------------------------
     def reference(self, world, optset, label):
         """(model or None, error text or None): fresh compile, cache off, pristine process,
         including construction of the four functions."""
-        p = procs.ApiProcess(label)
-        try:
-            m = p.transfer_model(world.mdir, world.name, world.ref_options(optset))
-            build_functions(m)
-            return m, None
-        except Exception as e:
-            return None, "%s: %s" % (type(e).__name__, str(e)[:120])
+        with self.ref_world:
+            # the reference process: a separate copy of the whole package (no module-level state shared with the code
+            # under test); the model it returns is only read afterwards
+            p = procs.ApiProcess(label)
+            try:
+                m = p.transfer_model(world.mdir, world.name, world.ref_options(optset))
+                build_functions(m)
+                return m, None
+            except Exception as e:
+                return None, "%s: %s" % (type(e).__name__, str(e)[:120])
 
     def judge(self, world, optset, label, got, err, shape, what, defer=None):
         """Compare one transfer_model outcome with the reference.  Returns a violation tuple or None.
